@@ -8,15 +8,27 @@ open Model.C06
 structure S where
   log : List String
   resp : Option Nat
+  /-- what continuations that a wrapper kept and ran after it had returned logged:
+  `{`, events, [`ERR`,] nested blocks, `}` per continuation, in the order they were kept -/
+  later : List String := []
 
 abbrev Err := List String   -- the log at the moment of the error, failing item last
+
+/-- the block a kept continuation contributes -/
+def laterBlock (r : Except Err S) : List String :=
+  match r with
+  | .ok t => ["{"] ++ t.log ++ t.later ++ ["}"]
+  | .error e => ["{"] ++ e ++ ["ERR", "}"]
 
 /-- Matcher ids: `1000*kind + n`, kind 0 = true, 1 = false, 2 = error,
 3 = "a response is present", 4 = "true only the first time it is asked" (its name is not in the log yet),
 5 / 6 = the stock `_true` / `_false` (constant, log nothing).
 Plain action ids: kind 0 = ok (log only), 1 = error, 2 = answer the query with rcode `n`, 3 = drop the response.
 Wrapper ids: kind 0 continue, 1 stop, 2 post-process, 3 run the continuation twice,
-4 run it on two copies (the harness does that concurrently). -/
+4 run it on two copies (the harness does that concurrently),
+5 return at once and run the continuation later (after the top-level run has
+returned) on a copy of the query as it was, 6 the same and also run it now.
+A continuation is a function of the state only, so "later" is the same value. -/
 def sem : Sem S Err where
   matchFn id s :=
     let name := s!"m{id}"
@@ -32,8 +44,8 @@ def sem : Sem S Err where
     let name := s!"a{id}"
     match id / 1000 with
     | 0 => .ok { s with log := s.log ++ [name] }
-    | 2 => .ok { log := s.log ++ [name], resp := some (id % 1000) }
-    | 3 => .ok { log := s.log ++ [name], resp := none }
+    | 2 => .ok { s with log := s.log ++ [name], resp := some (id % 1000) }
+    | 3 => .ok { s with log := s.log ++ [name], resp := none }
     | _ => .error (s.log ++ [name])
   wrapFn id k s :=
     let name := s!"w{id}"
@@ -47,13 +59,19 @@ def sem : Sem S Err where
     | 3 => match k s1 with
       | .ok r => k r
       | .error e => .error e
+    | 5 => .ok { s1 with later := s1.later ++ laterBlock (k { log := [], resp := s1.resp }) }
+    | 6 => k { s1 with later := s1.later ++ laterBlock (k { log := [], resp := s1.resp }) }
     | _ =>
       let copyLog := fun (r : Except Err S) => match r with
         | .ok t => t.log
         | .error e => e ++ ["ERR"]
-      let l1 := copyLog (k { log := [], resp := s1.resp })
-      let l2 := copyLog (k { log := [], resp := s1.resp })
-      .ok { s1 with log := s1.log ++ ["["] ++ l1 ++ ["|"] ++ l2 ++ ["]"] }
+      let copyLater := fun (r : Except Err S) => match r with
+        | .ok t => t.later
+        | .error _ => []
+      let r1 := k { log := [], resp := s1.resp }
+      let r2 := k { log := [], resp := s1.resp }
+      .ok { s1 with log := s1.log ++ ["["] ++ copyLog r1 ++ ["|"] ++ copyLog r2 ++ ["]"],
+                    later := s1.later ++ copyLater r1 ++ copyLater r2 }
   setResp rc s := { s with resp := some rc }
 
 /-- matcher item: `m<id>` or `!m<id>` -/
@@ -97,7 +115,7 @@ def handle : List String → String
       | none => "bad-op"
       | some top =>
         match execNext sem top [] { log := [], resp := none } with
-        | .ok s => "ok " ++ String.intercalate "," s.log ++ " resp=" ++ (match s.resp with | some r => toString r | none => "-")
+        | .ok s => "ok " ++ String.intercalate "," (s.log ++ s.later) ++ " resp=" ++ (match s.resp with | some r => toString r | none => "-")
         | .error e => "err " ++ String.intercalate "," e
   | _ => "bad-op"
 
